@@ -244,7 +244,7 @@ macro "ansv_cases" : tactic =>
 
 @[simp] theorem ansv_inboundData (a : Agent) (now : Nat) (l : Cand) (src len : Nat) :
     (a.inboundData now l src len).1.ansv = a.ansv := by
-  unfold Agent.inboundData
+  unfold Agent.inboundData Agent.enqueue
   ansv_cases
 
 end IceProofs.C20S
